@@ -488,6 +488,25 @@ def r_zip(E):
             if need not in links:
                 res.findings.append(Finding("R-ZIP", f"twins :: {need[1]}", f"twin link missing or crossed: {what}", rel2,
                                             loop.lineno, "ModelingUpdate.link_simulated_and_baseline_twins"))
+    # the twin links have one writer (besides the constructor's None): a second one that clears or re-points them can
+    # undo the pairing of a later simulation that recomputes the same baseline values
+    TWIN_WRITERS = {"ExplainableObject.__init__", "ModelingUpdate.link_simulated_and_baseline_twins"}
+    callers = _callers_index(pm)
+    for mod, (relm, tree, src) in sorted(pm.modules.items()):
+        for n in ast.walk(tree):
+            if isinstance(n, (ast.Assign, ast.AugAssign, ast.Delete)):
+                tg = n.targets if isinstance(n, (ast.Assign, ast.Delete)) else [n.target]
+                for t in tg:
+                    if isinstance(t, ast.Attribute) and t.attr in ("simulation_twin", "baseline_twin"):
+                        q, f_ = _enclosing(n)
+                        res.instances += 1
+                        if q not in TWIN_WRITERS and not _delegated(q, TWIN_WRITERS, callers):
+                            res.findings.append(Finding(
+                                "R-ZIP", f"twins :: {q} writes {t.attr}",
+                                f"{q} writes {t.attr} (`{norm(n)[:60]}`): the twin links are set, pair by pair, by "
+                                f"link_simulated_and_baseline_twins only; another writer (un-linking the values of a previous "
+                                f"simulation, say) hits the baseline values that the current simulation has just paired",
+                                relm, n.lineno, q))
     res.floor = 6
     return res
 
@@ -935,6 +954,31 @@ def r_edge(E):
         res.findings.append(Finding("R-EDGE", f"ExplainableObject.set_modeling_obj_container :: {p[:90]}",
                                     f"ExplainableObject.set_modeling_obj_container: {p}: a dependency would be listed "
                                     f"on one end only", rel, fn.lineno, "ExplainableObject.set_modeling_obj_container"))
+    # the hook that tells a child which ancestors to record: an attached value answers with itself — in the base class
+    # and in every override (a kind of value that passes its own ancestors through while attached never becomes an
+    # ancestor: edits of it recompute nothing)
+    from ..astutil import returned_expr
+    for cn in sorted(pm.classes):
+        if "ExplainableObject" not in pm.mro(cn):
+            continue
+        hk = next((m for m in pm.own_methods(cn) if m.name == "return_direct_ancestors_with_id_to_child"), None)
+        if hk is None:
+            continue
+        res.instances += 1
+        attached = parse(f"{hk.args.args[0].arg}.modeling_obj_container is not None")
+        for path in enumerate_paths(hk):
+            if path.end != "return" or not consistent(path_formula(path.conds, hk), attached):
+                continue
+            rv = returned_expr(path.stmts[-1], hk)
+            delegates = isinstance(rv, ast.Call) and norm(rv.func) == "super().return_direct_ancestors_with_id_to_child"
+            if not delegates and norm(rv) != f"[{hk.args.args[0].arg}]":
+                res.findings.append(Finding(
+                    "R-EDGE", f"{cn}.return_direct_ancestors_with_id_to_child while attached",
+                    f"{cn}.return_direct_ancestors_with_id_to_child returns `{norm(rv)[:60]}` on a path where the value is "
+                    f"attached to a model object, instead of [self]: values computed from an attached {cn} do not record it "
+                    f"as ancestor, so it has no children and editing it recomputes nothing", pm.path_of(cn), hk.lineno,
+                    f"{cn}.return_direct_ancestors_with_id_to_child"))
+                break
     # the ancestor list built at construction takes both parents
     rel, ini = pm.find_function(EB, "ExplainableObject.__init__")
     res.instances += 1
